@@ -15,27 +15,38 @@ Lemma reach_inv : forall evs, Inv (prun pinit evs).
 Proof. intros. apply inv_run. apply inv_init. Qed.
 
 (* [FULL] whenever a tractserver executes a GC instruction however late or often and thereby deletes its copy of a REGULAR tract then in the durable state at execution time either the blob is gone for good or never existed or the tract is inside the acknowledged length of a blob that still exists possibly marked deleted and the server is NOT among its holders at any version; in particular a tract in creation beyond the acknowledged end and a copy of a named holder are never deleted *)
-Theorem c05_gc_safe_replicated : forall evs k fault s t,
+Theorem c05_gc_safe_replicated : forall evs k fault recv s t,
   let st := prun pinit evs in
-  In (s, t) (removals st k fault) -> is_rs t = false ->
+  In (s, t) (removals_at st k fault recv) -> is_rs t = false ->
   match p_blob st (fst t) with
   | None => True
   | Some nt => snd t < nt /\ forall dv hs, p_tr st t = Some (dv, hs) -> ~ In s hs
   end.
-Proof. intros evs k fault s t st H R. apply (deliver_safe st k fault s t); auto. apply reach_inv. Qed.
+Proof. intros evs k fault recv s t st H R. apply removals_at_sub in H. apply (deliver_safe st k fault s t); auto. apply reach_inv. Qed.
 Print Assumptions c05_gc_safe_replicated.
 
 (* [FULL] an instruction racing with a repair in progress never deletes a copy that is ahead of the durable version of its tract namely the bumped survivors and the freshly pulled new hosts of a re-replication whose commit is still outstanding *)
-Theorem c05_gc_keeps_uncommitted_repair : forall evs k fault s t dv hs rv,
+Theorem c05_gc_keeps_uncommitted_repair : forall evs k fault recv s t dv hs rv,
   let st := prun pinit evs in
   p_tr st t = Some (dv, hs) -> p_rep st (s, t) = Some rv -> dv < rv ->
-  ~ In (s, t) (removals st k fault).
-Proof. intros evs k fault s t dv hs rv st H1 H2 H3. eapply deliver_keeps_ahead; eauto. apply reach_inv. Qed.
+  ~ In (s, t) (removals_at st k fault recv).
+Proof. intros evs k fault recv s t dv hs rv st H1 H2 H3 H. apply removals_at_sub in H. revert H. eapply deliver_keeps_ahead; eauto. apply reach_inv. Qed.
 Print Assumptions c05_gc_keeps_uncommitted_repair.
+
+(* [FULL] a collection request that reaches a tractserver other than the one it was computed for which is stamped on it removes nothing at all whatever it lists: server replaced under a new id at the same address or stale address cache or a duplicate delivered to the wrong process *)
+Theorem c05_gc_misaddressed_no_effect : forall st k fault recv i,
+  nth_error (p_soup st) k = Some i -> recv <> pi_ts i ->
+  removals_at st k fault recv = [] /\ p_rep (pstep st (PDeliver k fault recv)) = p_rep st.
+Proof.
+  intros st k fault recv i H N. assert (E : removals_at st k fault recv = []).
+  { unfold removals_at. rewrite H. destruct (recv =? pi_ts i) eqn:Q; [apply Z.eqb_eq in Q; contradiction|reflexivity]. }
+  split; [exact E|]. cbn. rewrite E. reflexivity.
+Qed.
+Print Assumptions c05_gc_misaddressed_no_effect.
 
 (* ---- undelete *)
 Definition gc_only (ev : pev) : Prop :=
-  match ev with PReport _ _ | PDeliver _ _ | PLeader => True | _ => False end.
+  match ev with PReport _ _ | PDeliver _ _ _ | PLeader => True | _ => False end.
 
 Lemma gc_only_keeps : forall evs st, Inv st -> Forall gc_only evs ->
   p_tr (prun st evs) = p_tr st /\ p_blob (prun st evs) = p_blob st /\ p_del (prun st evs) = p_del st /\
@@ -55,8 +66,8 @@ Proof.
   - (* deliver *)
     rewrite H1, H2, H3. repeat split; auto.
     intros s t dv hs Htr Hin. rewrite (H4 s t dv hs); auto.
-    rewrite deliver_rep. destruct (existsb (rk_eqb (s, t)) (removals st k fault)) eqn:Q; auto.
-    apply existsb_rk_In in Q. exfalso.
+    rewrite deliver_rep. destruct (existsb (rk_eqb (s, t)) (removals_at st k fault recv)) eqn:Q; auto.
+    apply existsb_rk_In in Q. apply removals_at_sub in Q. exfalso.
     destruct (iD st I _ _ _ Htr) as (R & _ & nt & Bn & _).
     pose proof (deliver_safe st k fault s t I Q R) as S. rewrite Bn in S. destruct S as [_ S]. exact (S dv hs Htr Hin).
   - (* leader *)
@@ -126,7 +137,7 @@ Definition f5_schedule_before_commit : list pev :=
 Theorem c05_gc_safe_rs_refuted_before_commit : exists evs k s p hosts,
   let st := prun pinit evs in
   In (-2, p) (p_pend st) /\ In (s, (-2, p)) (removals st k false) /\
-  let st' := pstep (pstep st (PDeliver k false)) (PRSUpdate 100 hosts) in
+  let st' := pstep (pstep st (PDeliver k false s)) (PRSUpdate 100 hosts) in
   lookup_piece (p_chunks st') p = Some s /\ p_rep st' (s, (-2, p)) = None.
 Proof.
   exists f5_schedule_before_commit, 0%nat, 10, 102, [1; 2; 10; 4; 5; 6; 7; 8; 9]. vm_compute.
@@ -257,6 +268,17 @@ Theorem c05_undelete_intact_cluster : forall evs1 evs2 b repl nt,
 Proof. exact LiftDel.undelete_intact_cluster. Qed.
 Print Assumptions c05_undelete_intact_cluster.
 
+(* [FULL] over the trace model in every state: an instruction delivered to a tractserver other than the one whose id is stamped on it is answered ErrWrongTractserver and changes nothing *)
+Theorem c05_gc_misaddressed_no_effect_cluster : forall x n f recv i,
+  nth_error (C05.Model.x_soup x) (Z.to_nat n) = Some i -> recv <> C05.Model.i_ts i ->
+  C05.Model.x_cl (fst (C05.Model.step_deliver_to x n f recv)) = C05.Model.x_cl x /\
+  hd 0 (snd (C05.Model.step_deliver_to x n f recv)) = c05_ErrWrongTractserver.
+Proof.
+  intros x n f recv i H N. unfold C05.Model.step_deliver_to. rewrite H.
+  destruct (recv =? C05.Model.i_ts i) eqn:Q; [apply Z.eqb_eq in Q; contradiction|]. split; reflexivity.
+Qed.
+Print Assumptions c05_gc_misaddressed_no_effect_cluster.
+
 (* every schedule of the earlier predicate Lift.ok5_run is a schedule of LiftDel.ok6_run *)
 Lemma c05_ok5_is_ok6 : forall evs, Lift.ok5_run C05.Model.init_x evs = true -> LiftDel.ok6_run C05.Model.init_x evs = true.
 Proof. intros evs H. apply LiftDel.ok5_ok6_run; [reflexivity | exact H]. Qed.
@@ -284,7 +306,7 @@ Theorem c05_rehosted_copy_is_newer : forall evs1 evs2 tk d0 H0 d1 H1 s,
 Proof. exact Lift.rehosted_copy_is_newer. Qed.
 Print Assumptions c05_rehosted_copy_is_newer.
 
-(* non-vacuity of the lifted schedule predicate: the trace of the harness case d-readd recorded on the real code (43 events: a write, two re-replications, reports, the stale instruction delivered twice after the server became a host again) is accepted, and it contains a delivery that removes a copy and later ones that do not *)
+(* non-vacuity of the lifted schedule predicate: the trace of the harness case d-readd recorded on the real code (52 events: a write, two re-replications, reports, the request refused by the wrong processes, the stale instruction delivered twice after the server became a host again) is accepted, and it contains a delivery that removes a copy and later ones that do not *)
 Example c05_lift_nonvacuous :
   Lift.ok5_run C05.Model.init_x C05.Witness.readd_trace = true /\
   length (C05.Model.x_soup (Lift.xrun C05.Model.init_x C05.Witness.readd_trace)) = 2%nat.
